@@ -161,6 +161,7 @@ def run_traffic(sc):
             _emit(srv, texts)
 
     def _emit(srv, texts):
+        state.setdefault('emitted_notifs', []).extend(t for t in texts if t.startswith('<notification'))     # arrival order at the client
         data = b''.join(srv.frame(t) for t in texts)
         segs = cut(rng, data, seg)
         if seg == 'paced' and len(data) > 10:
@@ -325,6 +326,7 @@ def run_traffic(sc):
         st, v, dt = FS.run_with_timeout(lambda: m.take_notification(block=True, timeout=0), 3)
         res['take_blocking_zero'] = [st, v is None, dt]
         res['notifs_sent'] = state['notifs_sent']
+        res['notifs_emitted'] = list(state.get('emitted_notifs', []))
         res['connected_before_close'] = m.connected
         res['closed_at'] = state['closed_at']
         # what the server saw for each tag
